@@ -61,6 +61,28 @@ def eq_values(I, st, a, b):
     if a is b:
         if not (is_z3(a)):
             return True
+    from . import bytesmodel as _bm
+    from .heap import HObj as _HObj, unwrap as _unwrap
+
+    if isinstance(a, _HObj) or isinstance(b, _HObj):
+        if (a is None or isinstance(a, _HObj)) and (b is None or isinstance(b, _HObj)):
+            return _unwrap(a) == _unwrap(b)
+        return False
+    if isinstance(a, (_bm.BytesVal, bytes)) or isinstance(b, (_bm.BytesVal, bytes)):
+        if not (isinstance(a, (_bm.BytesVal, bytes)) and isinstance(b, (_bm.BytesVal, bytes))):
+            return False
+        if isinstance(a, bytes) and isinstance(b, bytes):
+            return a == b
+        pa, pb = _bm.to_bytesval(I, st, a).parts, _bm.to_bytesval(I, st, b).parts
+        if len(pa) != len(pb):
+            raise Unsupported("== on byte strings with different field structure")
+        out = []
+        for x, y in zip(pa, pb):
+            if x.fmt != y.fmt:
+                raise Unsupported("== on byte strings with different field structure")
+            out.append(eq_values(I, st, x.length, y.length))
+            out.append(eq_values(I, st, x.val, y.val))
+        return conj(out)
     if a is None or b is None:
         if a is None and b is None:
             return True
@@ -239,6 +261,12 @@ def tuple_order(I, st, op, xs, ys):
 
 
 def identical(I, st, a, b):
+    from .heap import HObj as _HObj, unwrap as _unwrap
+
+    if isinstance(a, _HObj) or isinstance(b, _HObj):
+        if (a is None or isinstance(a, _HObj)) and (b is None or isinstance(b, _HObj)):
+            return _unwrap(a) == _unwrap(b)
+        return False
     if a is None or b is None:
         if a is None and b is None:
             return True
